@@ -1,7 +1,7 @@
 (* C01_offsets_select_remap: the offsets stored per singular pair address exactly the block of the concatenated
    point array that was produced by the remap named by the pair's local indices. *)
 From Coq Require Import QArith ZArith List Bool Lia.
-From BV Require Import Quad.Rules Quad.C12Lemmas Grid.Topology Grid.SingularOffsets.
+From BV Require Import Quad.Rules Quad.C12Lemmas Grid.Topology Grid.AdjacencyFacts Grid.SingularOffsets.
 Import ListNotations.
 
 Lemma drop_app_length {A} (a l : list A) k : drop (length a + k) (a ++ l) = drop k l.
@@ -153,4 +153,49 @@ Proof.
     replace (co + k - co)%nat with k by lia. rewrite app_nth1 by (rewrite map_length; exact Hk).
     apply nth_map_d. exact Hk. }
   repeat split; rewrite X by (try rewrite map_length; reflexivity); rewrite ?E; reflexivity.
+Qed.
+
+Theorem vectorize_vertex_entry order ts rs ea va k :
+  let A := vectorize order ts rs ea va in
+  let co := (length (coincident_indices ts rs) + length (filter_edge ts rs ea))%nat in
+  (k < length (filter_vertex ts rs va))%nat ->
+  match nth k (filter_vertex ts rs va) (0, 0, 0, 0)%nat with
+  | (e, f, i, j) =>
+    nth (co + k) (s_test_indices A) 0%nat = e /\ nth (co + k) (s_trial_indices A) 0%nat = f /\
+    nth (co + k) (s_test_offsets A) 0%Z = vertex_offset order i /\
+    nth (co + k) (s_trial_offsets A) 0%Z = vertex_offset order j /\
+    nth (co + k) (s_weights_offsets A) 0%Z = (npts order 0 + npts order 1)%Z /\
+    nth (co + k) (s_nquad A) 0%Z = npts order 2
+  end.
+Proof.
+  intros A co Hk. unfold A, vectorize. cbn [s_test_indices s_trial_indices s_test_offsets s_trial_offsets
+    s_weights_offsets s_nquad].
+  set (ea' := filter_edge ts rs ea) in *. set (va' := filter_vertex ts rs va) in *.
+  set (cl := coincident_indices ts rs) in *.
+  destruct (nth k va' (0, 0, 0, 0)%nat) as [[[e f] i] j] eqn:E.
+  assert (X : forall {T} (d : T) (g : vrow -> T) (pre mid : list T), length pre = length cl -> length mid = length ea' ->
+            nth (co + k) (pre ++ mid ++ map g va') d = g (nth k va' (0, 0, 0, 0)%nat)).
+  { intros T d g pre mid Hl Hm. rewrite app_assoc. rewrite app_nth2 by (rewrite app_length; unfold co; lia).
+    rewrite app_length, Hl, Hm. replace (co + k - (length cl + length ea'))%nat with k by (unfold co; lia).
+    apply nth_map_d. exact Hk. }
+  repeat split; rewrite X by (rewrite ?map_length; reflexivity); rewrite ?E; reflexivity.
+Qed.
+
+Theorem support_filter ts rs (ea : list erow) (va : list vrow) :
+  (forall r, In r (filter_edge ts rs ea) <->
+     In r ea /\ sup ts (fst (AdjacencyFacts.erow_pair r)) = true /\ sup rs (snd (AdjacencyFacts.erow_pair r)) = true) /\
+  (forall r, In r (filter_vertex ts rs va) <->
+     In r va /\ sup ts (fst (AdjacencyFacts.vrow_pair r)) = true /\ sup rs (snd (AdjacencyFacts.vrow_pair r)) = true) /\
+  (forall e, In e (coincident_indices ts rs) <-> sup ts e = true /\ sup rs e = true) /\
+  NoDup (coincident_indices ts rs).
+Proof.
+  split; [|split; [|split]].
+  - intros [[[[[e f] a] b] c] d]. unfold filter_edge. rewrite filter_In, andb_true_iff. reflexivity.
+  - intros [[[e f] a] b]. unfold filter_vertex. rewrite filter_In, andb_true_iff. reflexivity.
+  - intros e. unfold coincident_indices. rewrite filter_In, andb_true_iff, in_seq. split; [tauto|].
+    intros [A B]. split; [|auto]. unfold sup in *.
+    assert (e < length ts)%nat by (destruct (Nat.lt_ge_cases e (length ts)); [assumption|rewrite nth_overflow in A by assumption; discriminate]).
+    assert (e < length rs)%nat by (destruct (Nat.lt_ge_cases e (length rs)); [assumption|rewrite nth_overflow in B by assumption; discriminate]).
+    lia.
+  - apply NoDup_filter, seq_NoDup.
 Qed.
